@@ -8,6 +8,7 @@ import (
 
 	"github.com/ipni/go-libipni/ingest/model"
 	"github.com/libp2p/go-libp2p/core/peer"
+	"github.com/libp2p/go-libp2p/core/record"
 	recpb "github.com/libp2p/go-libp2p/core/record/pb"
 	"github.com/multiformats/go-multihash"
 	"google.golang.org/protobuf/proto"
@@ -112,6 +113,21 @@ func craftReq(rc *reqCase, kt string) ([]byte, error) {
 		}
 		e2, _ := envOf(d2)
 		return editReq(data, func(e *recpb.Envelope) error { e.Signature = e2.Signature; return nil })
+	case "sealed-as-foreign-type":
+		// the same payload, validly sealed by the same key for the same domain, under a payload type of its own
+		e0, err := envOf(data)
+		if err != nil {
+			return nil, err
+		}
+		dom := model.IngestRequestEnvelopeDomain
+		if c.Made == "register" {
+			dom = peer.PeerRecordEnvelopeDomain
+		}
+		env, err := record.Seal(&foreignRecord{domain: dom, payload: e0.Payload}, ids.KeyT(c.Key, kt))
+		if err != nil {
+			return nil, err
+		}
+		return env.Marshal()
 	case "type":
 		d2, err := makeReq(other([]string{"ingest", "register"}, c.Made), c.Named, "c1", c.Key, kt)
 		if err != nil {
@@ -122,6 +138,17 @@ func craftReq(rc *reqCase, kt string) ([]byte, error) {
 	}
 	return nil, fmt.Errorf("unknown alteration %s", c.Alt)
 }
+
+// foreignRecord seals arbitrary payload bytes under a payload type that is not registered for requests.
+type foreignRecord struct {
+	domain  string
+	payload []byte
+}
+
+func (f *foreignRecord) Domain() string                 { return f.domain }
+func (f *foreignRecord) Codec() []byte                  { return []byte("verif-foreign-payload-type") }
+func (f *foreignRecord) MarshalRecord() ([]byte, error) { return f.payload, nil }
+func (f *foreignRecord) UnmarshalRecord(b []byte) error { f.payload = b; return nil }
 
 type reqObs struct {
 	Ok      bool   `json:"ok"`
